@@ -43,6 +43,26 @@ def run(repo, chk):
     rule_version(repo, chk)
     rule_abort(repo, chk)
     rule_gzip(repo, chk)
+    rule_final_notification(repo, chk)
+
+
+def rule_final_notification(repo, chk):
+    """A request handler that is a generator answers through value notifications (`request_value_changed`): the dispatcher sends the response when the value has a
+    result and keeps waiting while it is a promise.  When the generator ends without having produced anything, the stepper forces one last notification: the listener
+    must be able to tell it from an intermediate one, or the request is never answered."""
+    from .common import MANAGER
+    chk.rule('C15.l', 'the last (forced) value notification of a generator handler is distinguishable from "still pending": the promise mark is taken off the value before it')
+    t = repo.func(MANAGER, 'Manager.processTask')
+    chk.touch(t)
+    g = t.cfg()
+    forced = [n for n in g.nodes if n.kind == 'stmt' and any(r.endswith('.value') and len(c.args) == 1 and pat.is_const(c.args[0], True) for r, c in pat.method_calls(n.ast, 'inform'))
+              and any(k == 'except' and 'StopIteration' in src(getattr(a, 'type', None) or ast.Constant(value='')) for k, a in n.ctx)]
+    need(forced, 'C15.l: processTask has no forced end-of-task notification')
+    clears = [n for n in g.nodes if n.kind == 'stmt' and any(a == 'promise' and pat.is_const(v, False) for _r, a, v in pat.attr_store(n.ast))]
+    for n in forced:
+        q = Q.reachable_without(g, n, avoid_node=lambda m: m in clears, weak=True)
+        chk.ob('l', t.ref, 'when a generator handler ends, listeners of its value can tell "finished without a result" from "pending" (promise cleared before the forced '
+                           'notification)', q is None and bool(clears), loc(t, n.ast), discr='final-notification-distinguishable')
 
 
 def rule_gzip(repo, chk):
